@@ -62,6 +62,23 @@ harness_op(int argc, char **argv)
         free(out);
         sx_destroy(&r.node);
         free(s);
+    } else if (strcmp(argv[0], "sx.deep") == 0 && argc == 3) {
+        /* nesting depth n: "open" = n opening parentheses and nothing else (no complete expression),
+         * "nested" = the empty list wrapped n times in a one-element list; only status, depth of the first-element
+         * chain and position are printed (the tree has n nodes) */
+        size_t n = parse_u64(argv[2]);
+        bool nested = strcmp(argv[1], "nested") == 0;
+        size_t len = nested ? 2 * n + 2 : n;
+        char *s = malloc(len ? len : 1);
+        memset(s, '(', nested ? n + 1 : n);
+        if (nested) memset(s + n + 1, ')', n + 1);
+        struct sx_parse_result r = sx_parse(s, len, 0);
+        size_t depth = 0;
+        for (const struct sx_node *k = r.node; k && k->type == SXT_PAIR; k = k->data.pair->car) depth++;
+        printf("%s depth=%zu", status_name(r.status), depth);
+        if (r.status == SXS_SUCCESS) printf(" pos=%zu", r.position);
+        sx_destroy(&r.node);
+        free(s);
     } else {
         printf("bad-op");
     }
